@@ -1071,6 +1071,11 @@ impl<'a> GeneratorState<'a> {
                     }
                 }
             }
+            // The returned value is in A: the pending ++/-- take effect before leaving
+            if !self.deferred_plusplus.is_empty() {
+                self.acc_in_use = f.return_type.is_some();
+                self.purge_deferred_plusplus()?;
+            }
             if f.inline {
                 self.asm(JMP, &ExprType::Label(".endof".into()), 0, false)?;
             } else {
